@@ -89,6 +89,12 @@ var cur atomic.Pointer[Sched]
 // Installed reports whether a scheduler exists for the current execution.
 func Installed() bool { return cur.Load() != nil }
 
+// Active reports whether a scheduler is installed and intercepting points.
+func Active() bool {
+	s := cur.Load()
+	return s != nil && s.active.Load()
+}
+
 // New creates a scheduler and installs it (inactive: points pass through
 // until Activate is called).
 func New() *Sched {
